@@ -62,15 +62,67 @@ def ca_key_result(ip, st):
     return (t, n)
 
 
+# KexDH.send_init raises nothing exactly under this precondition (q is what set_params derives from p; the group-exchange unit has to establish
+# it from the server-supplied modulus through the real set_params)
+SEND_INIT_REQUIRES = ["self._KexDH__q >= 3", "self._KexDH__p != 0"]
+
+
+def m_wire_byte(ip, st, recv, args, kwargs):
+    st.ghost['ordered'] = st.ghost['ordered'] and st.ghost['n_byte'] == 0 and st.ghost['n_mp'] == 0 and st.ghost['n_pkt'] == 0
+    st.ghost['n_byte'] += 1
+    st.ghost['byte_val'] = args[0]
+    return None
+
+
+def m_wire_mpint2(ip, st, recv, args, kwargs):
+    st.ghost['ordered'] = st.ghost['ordered'] and st.ghost['n_byte'] == 1 and st.ghost['n_mp'] == 0 and st.ghost['n_pkt'] == 0
+    st.ghost['n_mp'] += 1
+    st.ghost['mp_val'] = args[0]
+    return None
+
+
+def m_wire_send(ip, st, recv, args, kwargs):
+    st.ghost['ordered'] = st.ghost['ordered'] and st.ghost['n_byte'] == 1 and st.ghost['n_mp'] == 1 and st.ghost['n_pkt'] == 0
+    st.ghost['n_pkt'] += 1
+    return None
+
+
+def setup_send_init(ip, st, fr, case):
+    """KexDH with arbitrary group parameters; a socket that records what is written (ghost counters; the order of the calls is concrete)"""
+    fr['self'] = new_kexdh(ip, st, 'KexDH')
+    for f in ('g', 'p', 'q', 'x', 'e'):
+        st.mut(fr['self']).f['_KexDH__' + f] = fresh('dh_' + f + '0', 'int')
+    fr['s'] = st.new_obj('<wire>', {})
+    fr['init_msg'] = fresh('init_msg', 'int')
+    st.ghost.update({'n_byte': 0, 'n_mp': 0, 'n_pkt': 0, 'byte_val': None, 'mp_val': None, 'ordered': True})
+    ip.method_models[('<wire>', 'write_byte')] = m_wire_byte
+    ip.method_models[('<wire>', 'write_mpint2')] = m_wire_mpint2
+    ip.method_models[('<wire>', 'send_packet')] = m_wire_send
+    return {}
+
+
+def send_init_units():
+    """KexDH.send_init itself (was an assumed contract): under SEND_INIT_REQUIRES nothing is raised, the private exponent is drawn from [2, q), the
+    public value lies in the range of the modulus, and exactly one packet goes out: the message type byte, then e as an mpint, then send_packet"""
+    return [Unit(Contract('KexDH.send_init', setup=setup_send_init,
+                          raises={'ValueError': "not (%s)" % " and ".join(SEND_INIT_REQUIRES)},     # exactly when: the precondition is sufficient AND necessary
+                          modifies=['self._KexDH__x:int', 'self._KexDH__e:int'],
+                          ensures=["2 <= self._KexDH__x and self._KexDH__x < self._KexDH__q",
+                                   "implies(self._KexDH__p > 0, 0 <= self._KexDH__e and self._KexDH__e < self._KexDH__p)",
+                                   "self._KexDH__g == old.self._KexDH__g and self._KexDH__p == old.self._KexDH__p and self._KexDH__q == old.self._KexDH__q",
+                                   "ghost('n_byte') == 1 and ghost('n_mp') == 1 and ghost('n_pkt') == 1 and ghost('ordered')",
+                                   "ghost('byte_val') == init_msg and ghost('mp_val') == self._KexDH__e"]), harness=None)]
+
+
 def stubs():
     return [Contract('traceback:format_exc', mode='contract', result='str', modifies=[], ensures=[])]
 
 
 def callee_contracts():
     return [
-        Contract('KexDH.send_init', mode='contract', result=lambda ip, st: None, requires=["self._KexDH__p >= 7"], raises={},
+        Contract('KexDH.send_init', mode='contract', result=lambda ip, st: None, requires=list(SEND_INIT_REQUIRES), raises={},
                  modifies=['self._KexDH__x:int', 'self._KexDH__e:int'], ensures=[],
-                 note='ASSUMED (body uses random.SystemRandom and 3-argument pow, not modelled): with p >= 7, randrange(2, (p-1)//2) has a non-empty range and pow(g, x, p) a non-zero modulus, so nothing is raised'),
+                 note='call-site view; the function itself is verified against the same precondition (unit KexDH.send_init): randrange(2, q) needs a non-empty range, pow(g, x, p) a non-zero modulus'),
         Contract('KexDH.__get_bytes', mode='contract', result=get_bytes_result, requires=["ptr >= 0"], raises={'struct.error': "len(buf) < ptr + 4"}, modifies=[], ensures=[],
                  note='call-site view; the function itself is verified against the same clauses (unit KexDH.__get_bytes)'),
     ]
